@@ -56,4 +56,19 @@ def kvOnlineTop (q offset n : Nat) (l : Online) : Online :=
   let rows := sortBy kvTopBefore (l.filter (fun e => decide (e.1.2 ≤ q)))
   dedupAddr ((rows.drop offset).take n) []
 
+/-- `olookwrap`: LookupOnline builds its exclusive upper bound by incrementing the LAST BYTE of the big-endian key
+(address, rnd) without carry: for rnd ≡ 255 (mod 256) the bound wraps to (address, rnd − 255) and the entries with
+update round in [rnd − 255, rnd] are missed -/
+def kvLookupOnline (a : Addr) (q : Nat) (l : Online) : Option (OKey × OnlRow) :=
+  if q % 256 = 255 then (l.filter (fun e => decide (e.1.1 = a) && decide (e.1.2 + 255 < q))).getLast?
+  else lookupOnline a q l
+
+/-- `txsnap`: inside a Pebble transaction every read goes to the snapshot taken at BeginTransaction.  For
+OnlineAccountsDelete this means: the rows to delete are chosen on the snapshot `snap`, and then removed from the
+current contents `cur` (rows inserted by the same batch are neither seen nor deleted) -/
+def onlineDeleteVia (del : Online → Online) (snap cur : Online) : Online :=
+  let kept := del snap
+  let gone := (snap.filter (fun e => !(kept.any (fun k => decide (k.1 = e.1))))).map (·.1)
+  cur.filter (fun e => !(gone.contains e.1))
+
 end Model.TrackerStoreKV
